@@ -505,7 +505,7 @@ func runProgram(rep *lib.Report, dir, pkg, text string, cases []*caseInfo, skelS
 	for _, f := range res.Flows {
 		s, okS := srcLine[f.SrcLine]
 		t, okT := snkLine[f.SinkLine]
-		if !okS || !okT {
+		if !okS || !okT || f.SrcFile != "main.go" || f.SinkFile != "main.go" {
 			rep.Count("e2e:reported-flow-outside-case-sites")
 			continue
 		}
@@ -624,6 +624,38 @@ func runProgram(rep *lib.Report, dir, pkg, text string, cases []*caseInfo, skelS
 		if len(missedF5) > 0 {
 			missesOut++
 			rep.Fail(f5Key, "flow dropped because of a validator condition taken from ONE path while another path by-passes the validator", []byte(content), false)
+		}
+	}
+	// second configuration: on-demand summaries. The conditions of an edge are built by the same code
+	// whenever the function is summarised, so every flow that the default configuration reports and the
+	// ground truth confirms must be reported again.
+	{
+		res2 := l.Analyze(taintrun.Options{OnDemand: true, SourceRe: `^source$`, SinkRe: `^sink(Any|Box|Ptr)?$`, SanitizerRe: sanitizerRe, ValidatorRe: validatorRe})
+		if !res2.OK() {
+			rep.Fail("harness-analyze-ondemand", fmt.Sprintf("taint analysis (summarize-on-demand) did not complete: loadErr=%v panic=%s", res2.LoadErr, tail(res2.Panic, 1500)), nil, true)
+		} else {
+			rept2 := map[[2]int]bool{}
+			for _, f := range res2.Flows {
+				s, okS := srcLine[f.SrcLine]
+				t, okT := snkLine[f.SinkLine]
+				if okS && okT && f.SrcFile == "main.go" && f.SinkFile == "main.go" {
+					rept2[[2]int{s, t}] = true
+				}
+			}
+			lost := 0
+			for _, ci := range cases {
+				for k := range ci.gt {
+					if ci.rept[k] && !rept2[k] {
+						lost++
+						if lost <= 3 {
+							rep.Fail("e2e-ondemand-miss:"+ci.src, fmt.Sprintf("with summarize-on-demand the analysis no longer reports the unvalidated flow (source site, sink site)=%v that the default configuration reports and a native execution exhibits", k), []byte(ci.src), false)
+						}
+					}
+				}
+			}
+			rep.Extra["ondemand_flows"] = len(rept2)
+			rep.Extra["ondemand_lost_flows"] = lost
+			rep.Count("config:summarize-on-demand")
 		}
 	}
 	rep.Extra[name+"_in_proved_domain"] = inDomain
